@@ -48,20 +48,20 @@ def avgwave (l : List (K × K)) : K :=
   let den := integ (fun p => p.2) l
   if den = 0 then 0 else |num / den|
 
-/-- `barlam`: `num = trapz(y·ln x / x)`, `den = trapz(y / x)`;
-`0` if `num == 0 or den == 0` else `exp(|num/den|)` -/
+/-- `barlam` (the documented formula): `num = trapz(y·ln x / x)`, `den = trapz(y / x)`;
+`0` if `den == 0` else `exp(num/den)` (no `abs`: numerator and denominator change sign together with
+the sampling order) -/
 def barlam (T : Transc K) (l : List (K × K)) : K :=
   let num := integ (fun p => p.2 * T.ln p.1 / p.1) l
   let den := integ (fun p => p.2 / p.1) l
-  if num = 0 ∨ den = 0 then 0 else T.exp |num / den|
+  if den = 0 then 0 else T.exp (num / den)
 
-/-- the documented mean-log wavelength `exp(∫(P/λ) ln λ dλ / ∫(P/λ) dλ)`: `barlam` without the
-`abs` and without the `num == 0` guard (what the method computes once
-`pending_fixes/C11-barlam-below-one-angstrom.diff` is applied) -/
-def barlamDoc (T : Transc K) (l : List (K × K)) : K :=
+/-- `barlam` AS FOUND, before /repo commit ca9035f: `0` if `num == 0 or den == 0` else
+`exp(|num/den|)`.  Not used by the model any more; kept for the as-found witnesses of C11 §7. -/
+def barlamAsFound (T : Transc K) (l : List (K × K)) : K :=
   let num := integ (fun p => p.2 * T.ln p.1 / p.1) l
   let den := integ (fun p => p.2 / p.1) l
-  if den = 0 then 0 else T.exp (num / den)
+  if num = 0 ∨ den = 0 then 0 else T.exp |num / den|
 
 /-- `pivot`: `num = trapz(y·x)`, `den = trapz(y / x)`; `0` if `den == 0` else `sqrt(|num/den|)` -/
 def pivot (T : Transc K) (l : List (K × K)) : K :=
